@@ -26,6 +26,8 @@ def impl_oracle(c):
     kind = J.crash_kind(o)
     if kind:
         return kind, "%s: %s" % (c["op"], o["crash"][:160])
+    if c["op"] == "file":
+        return J.file_oracle(c)
     if c["op"] == "print":
         if not o.get("ok"):
             return "marshal-failed", "Marshal failed: %s" % o.get("note")
